@@ -474,3 +474,67 @@ package yang
 //@            && old(ms.SubModules[nodeName(n)]) != nil ==> result == old(ms.SubModules[nodeName(n)])
 //@   ensures  !typeis(n, *Import) && !typeis(n, *Include) ==> result == nil
 //@   safe
+
+// ---------------------------------------------------------------------------
+// C17: schema path lookup.
+//
+//@ func getPrefix props C17 C09 C11
+//@   ensures (result == "" && result1 == s) || s == result + ":" + result1
+//@   ensures result == pfxOf(s) && result1 == baseOf(s)
+//@   modifies nothing
+//@   safe
+//@ spec pfxOf(s string) string = cutFound(s, ":") ? cutHead(s, ":") : ""
+//@ spec baseOf(s string) string = cutFound(s, ":") ? cutTail(s, ":") : s
+//
+// One step of a lookup, as the property states it: "." stays, ".." goes to the
+// parent, below an rpc/action only input and output name a child, elsewhere the
+// step (without its prefix) names the child filed under it -- or nothing.
+//@ spec step(e *Entry, part string) *Entry = e == nil ? nil : (part == "." ? e : (part == ".." ? e.Parent
+//@     : (e.RPC != nil ? (baseOf(part) == "input" ? e.RPC.Input : (baseOf(part) == "output" ? e.RPC.Output : nil))
+//@     : (baseOf(part) == "." ? e : ((baseOf(part) == "" || baseOf(part) == "..") ? nil : e.Dir[baseOf(part)])))))
+//
+// Processed-tree assumptions (established by the unverified builder): modules
+// are AST roots and belong to a module set, the root of every entry tree was
+// made from a module.
+//@ pred modOK(m *Module) = m == nil || (nodeParent(iface(m)) == nil && m.Modules != nil && m.Modules.Modules != nil)
+//@ pred rootOK(x *Entry) = x == nil || x.Parent != nil || (typeis(x.Node, *Module) && asptr(x.Node, *Module) != nil)
+//
+//@ func module props C17 C12
+//@   requires n != nil && rootOf(n) != nil && (forall m *Module :: modOK(m))
+//@   ensures  result == nsOwner(rootOf(n))
+//@   pure
+//@   safe
+//
+// FindModuleByPrefix: no prefix or the module's own prefix denotes the module
+// the node is written in; it may load an imported module from disk, which is
+// assumed to leave the processed trees as they are.
+//@ spec ownPrefix(m *Module) string = m.BelongsTo != nil ? (m.BelongsTo.Prefix == nil ? "" : m.BelongsTo.Prefix.Name) : (m.Prefix == nil ? "" : m.Prefix.Name)
+//@ func FindModuleByPrefix props C17 C09
+//@   requires n != nil ==> rootOf(n) != nil && rootOf(n).Modules != nil
+//@   requires n != nil ==> (forall i int :: 0 <= i && i < len(rootOf(n).Import) ==> rootOf(n).Import[i] != nil && rootOf(n).Import[i].Prefix != nil)
+//@   ensures  n == nil ==> result == nil
+//@   ensures  n != nil && (prefix == "" || prefix == old(ownPrefix(rootOf(n)))) ==> result == rootOf(n)
+//@   ensures  n != nil && prefix != "" && prefix != old(ownPrefix(rootOf(n))) && (forall i int :: 0 <= i && i < len(old(rootOf(n).Import)) ==> old(rootOf(n).Import[i].Prefix.Name) != prefix) ==> result == nil
+//@   ensures[assume:loading-keeps-the-processed-trees] (forall m *Module :: modOK(m)) && (forall x *Entry :: ranked(x) && rootOK(x))
+//@            && (forall x *Entry :: allocated(x) ==> x.Parent == old(x.Parent) && x.Node == old(x.Node))
+//@   safe
+//@   loop 1
+//@     invariant forall j int :: 0 <= j && j < _k ==> mod.Import[j].Prefix.Name != prefix
+//
+//@ func (*Entry).Find props C17 C04
+//@   requires forall x *Entry :: ranked(x) && rootOK(x)
+//@   requires forall m *Module :: modOK(m)
+//@   requires forall x *Entry :: x != nil && x.Node != nil ==> rootOf(x.Node) != nil
+//@   requires forall m *Module :: m != nil ==> (forall i int :: 0 <= i && i < len(m.Import) ==> m.Import[i] != nil && m.Import[i].Prefix != nil)
+//@   ensures  e == nil || name == "" ==> result == nil
+//@   safe
+//@   loop 1
+//@     invariant e != nil
+//@     decreases rank(e)
+//@   loop 2
+//@     body_ensures[step] e == step(old(e), parts[old(_k)])
+//@     body_returns[nothing-named] result == nil && step(old(e), parts[old(_k)]) == nil
+//@     body_ensures[existing-untouched] forall x *RPCEntry :: (old(x.Input) != nil ==> x.Input == old(x.Input)) && (old(x.Output) != nil ==> x.Output == old(x.Output))
+//@     body_ensures[created-linked] forall x *RPCEntry :: (old(x.Input) == nil && x.Input != nil ==> fresh(x.Input) && x.Input.Parent == old(e) && x.Input.Kind == InputEntry && x.Input.Name == "input" && x.Input.Dir != nil && x.Input.Node == old(e).Node)
+//@                 && (old(x.Output) == nil && x.Output != nil ==> fresh(x.Output) && x.Output.Parent == old(e) && x.Output.Kind == OutputEntry && x.Output.Name == "output" && x.Output.Dir != nil && x.Output.Node == old(e).Node)
+//@     body_ensures[tree-untouched] forall x *Entry :: allocated(x) ==> x.Parent == old(x.Parent) && x.Dir == old(x.Dir) && x.RPC == old(x.RPC) && x.Kind == old(x.Kind) && x.Name == old(x.Name)
